@@ -22,10 +22,10 @@ func TestVerifReplayC17(t *testing.T) {
 	}
 	json.Unmarshal(data, &sc)
 	n := int(sc.Args[0])
-	short := []string{"a", "b", "c", "d"}
-	rel := []string{"a.yaml", "b.yaml", "sub/c.yaml", "sub/d.yaml"}
-	fromTop := []string{"a.yaml", "b.yaml", "sub/c.yaml", "sub/d.yaml", "sub", "missing.yaml"}
-	fromSub := []string{"../a.yaml", "../b.yaml", "c.yaml", "d.yaml", "../sub", "missing.yaml"}
+	short := []string{"a", "c", "d", "b"}
+	rel := []string{"a.yaml", "sub/c.yaml", "sub/d.yaml", "b.yaml"}
+	fromTop := []string{"a.yaml", "sub/c.yaml", "sub/d.yaml", "b.yaml", "sub", "missing.yaml"}
+	fromSub := []string{"../a.yaml", "c.yaml", "d.yaml", "../b.yaml", "../sub", "missing.yaml"}
 	bv := func(k string, def bool) bool {
 		if v, ok := sc.Inputs[k].(bool); ok {
 			return v
@@ -43,7 +43,7 @@ func TestVerifReplayC17(t *testing.T) {
 		parses[k] = bv("parses."+short[k], true)
 		cnt := num("nimports." + short[k])
 		texts := fromTop
-		if k >= 2 {
+		if k == 1 || k == 2 {
 			texts = fromSub
 		}
 		var sb strings.Builder
@@ -76,7 +76,7 @@ func TestVerifReplayC17(t *testing.T) {
 				if tg < n {
 					reach[tg] = true
 				} else if tg == 4 {
-					for j := 2; j < n; j++ {
+					for j := 1; j <= 2 && j < n; j++ {
 						if exists[j] {
 							reach[j] = true
 						}
